@@ -440,11 +440,15 @@ theorem inv4_accept {st : State} (h : Inv st) (h4 : Inv4 st) (k : Nat) : Inv4 (d
           (by simp [dataOf]) (by simp [closeCount])
       · split
         · exact h4
-        · refine inv4_put h h4 hl rfl rfl rfl rfl (fun _ => rfl) [.resp s.reqId s.subId] (by simp) ?_ (by simp)
-            (by simp [Frame.notifSid]) (by simp [dataOf]) (by simp [closeCount, Frame.isCloseFor])
-          intro f hf _
-          simp at hf; subst hf
-          simp [Frame.fits]
+        · split
+          · refine inv4_put h h4 hl rfl rfl rfl rfl (by simp [hph]) [.respDead s.reqId s.subId] (by simp)
+              (by simp [Frame.owned]) (by simp) (by simp [Frame.notifSid]) (by simp [dataOf])
+              (by simp [closeCount, Frame.isCloseFor])
+          · refine inv4_put h h4 hl rfl rfl rfl rfl (fun _ => rfl) [.resp s.reqId s.subId] (by simp) ?_ (by simp)
+              (by simp [Frame.notifSid]) (by simp [dataOf]) (by simp [closeCount, Frame.isCloseFor])
+            intro f hf _
+            simp at hf; subst hf
+            simp [Frame.fits]
 
 theorem inv4_refuse {st : State} (h : Inv st) (h4 : Inv4 st) (k : Nat) (code : Int) (ph : Phase)
     (hph' : ph ≠ .accepted) : Inv4 (doRefuse st k code ph).1 := by
@@ -709,6 +713,14 @@ theorem inv4_step {st : State} (h : Inv st) (h4 : Inv4 st) (op : Op) (hf : fresh
     Inv4 (step st op).1 := by
   cases op with
   | subscribe c m rid sid => exact inv4_subscribe h4 c m rid sid hf
+  | cancelCall k =>
+    simp only [step, doCancelCall]
+    split
+    · exact h4
+    · rename_i s cn hl
+      split
+      · exact h4
+      · exact inv4_quiet h h4 hl rfl rfl rfl rfl rfl rfl rfl rfl
   | accept k => exact inv4_accept h h4 k
   | reject k code => exact inv4_refuse h h4 k code .rejected (by decide)
   | dropPending k => exact inv4_refuse h h4 k internalCode .dropped (by decide)
@@ -877,6 +889,14 @@ theorem step_shape (st : State) (op : Op) : Shape st op (step st op).2 (step st 
           · exact .putConn hc (connRel_push _ _)
           · exact .same
         · exact .newSub hc ⟨id, id, rfl, rfl, ⟨[], by simp [Conn.hist]⟩⟩
+  | cancelCall k =>
+    simp only [step, doCancelCall]
+    split
+    · exact .same
+    · rename_i s cn hl
+      split
+      · exact .same
+      · exact .put hl ⟨rfl, rfl, rfl, rfl, id, id, id, Or.inl rfl⟩ ConnRel.rfl'
   | accept k =>
     simp only [step, doAccept]
     split
@@ -890,7 +910,9 @@ theorem step_shape (st : State) (op : Op) : Shape st op (step st op).2 (step st 
         · exact .put hl ⟨rfl, rfl, rfl, rfl, id, by simp [hph], id, Or.inl rfl⟩ (connRel_release _)
         · split
           · exact .same
-          · exact .putD hl ⟨rfl, rfl, rfl, rfl, id, fun _ => rfl, id, Or.inl rfl⟩ (connRel_push _ _)
+          · split
+            · exact .put hl ⟨rfl, rfl, rfl, rfl, id, by simp [hph], id, Or.inl rfl⟩ (connRel_push_release _ _)
+            · exact .putD hl ⟨rfl, rfl, rfl, rfl, id, fun _ => rfl, id, Or.inl rfl⟩ (connRel_push _ _)
   | reject k code =>
     simp only [step, doRefuse]
     split
